@@ -41,7 +41,13 @@ pub fn run(k: &str, c: &Value) -> Value {
             let mesh = Mesh::new(verts.clone(), faces.clone(), false);
             let pts: Vec<Point3> = c["samples"].as_array().unwrap().iter().map(|q| { let f = faces[us(&q[0])];
                 Point3::from(verts[f[0] as usize].coords * fx(&q[1]) + verts[f[1] as usize].coords * fx(&q[2]) + verts[f[2] as usize].coords * fx(&q[3])) }).collect();
-            let pre = if c["pre"].is_null() { Iso3::identity() } else { iso3(&c["pre"]) };
+            // "pre_inv_euler": the inverse of the further motion given as translation + Euler angles (roll, pitch, yaw), so that the
+            // guess (guess * pre^-1) has exactly those Euler angles when the small guess is the identity (gimbal-lock poses)
+            let pre = if !c["pre_inv_euler"].is_null() { let e = &c["pre_inv_euler"];
+                    Iso3::from_parts(parry3d_f64::na::Translation3::new(fx(&e[0]), fx(&e[1]), fx(&e[2])), { use parry3d_f64::na::{UnitQuaternion as Q, Vector3 as V};
+                        // engeom's convention: Rx * Ry * Rz
+                        Q::from_axis_angle(&V::x_axis(), fx(&e[3])) * Q::from_axis_angle(&V::y_axis(), fx(&e[4])) * Q::from_axis_angle(&V::z_axis(), fx(&e[5])) }).inverse() }
+                else if c["pre"].is_null() { Iso3::identity() } else { iso3(&c["pre"]) };
             let disp = pre * iso3(&c["disp"]);
             let displaced: Vec<Point3> = pts.iter().map(|p| disp * p).collect();
             let init = iso3(&c["init"]) * pre.inverse();
